@@ -6,6 +6,7 @@ import RsslVerif.Lemmas.FixpointSlots
 import RsslVerif.Lemmas.FixpointLeaf
 import RsslVerif.Thm.C09
 import RsslVerif.Lemmas.FixpointNamesWF
+import RsslVerif.Lemmas.FixpointNamesEnum
 import RsslVerif.Gen.PathLookup
 import RsslVerif.Gen.TemplateConst
 import RsslVerif.Lemmas.FixpointTemplate
@@ -568,7 +569,10 @@ open RsslVerif.Model.Fixpoint RsslVerif.Model.FixpointBridge RsslVerif.Model.Gen
     `find_identifier_in_scope` tries locals, then the symbol loop (functions are gathered, every value symbol returns,
     types / namespaces / enum scopes are skipped), then the overloads, then struct members, then types.  A change of the
     outward walk (seeded mutant C04-3: stop at the innermost scope that declares the first qualifier) breaks this
-    obligation. -/
+    obligation.  Declarations: `register_enum_value` refuses a value of the enum's own scope, then a local / global /
+    cbuffer member / enum value / type / function of the scope that contains the enum, then (fix fe5dd8d) a namespace of
+    that scope — `enumValueRefused`; the promotion loop of `end_enum` has no assertion about the other symbols of the
+    name (a revert of the fix breaks both conjuncts). -/
 theorem path_lookup_as_modelled :
     RsslVerif.Gen.PathLookup.findIdentifierSource = findIdentifierSource ∧
     RsslVerif.Gen.PathLookup.walkIntoScopesSource = walkIntoScopesSource ∧
@@ -576,8 +580,10 @@ theorem path_lookup_as_modelled :
     RsslVerif.Gen.PathLookup.startScope = [("Relative", "self.current_scope"), ("Absolute", "0")] ∧
     RsslVerif.Gen.PathLookup.emittedBase = "Relative" ∧
     RsslVerif.Gen.PathLookup.findInScopeStages = findInScopeStages ∧
-    RsslVerif.Gen.PathLookup.findInScopeArms = findInScopeArms :=
-  ⟨rfl, rfl, rfl, rfl, rfl, rfl, rfl⟩
+    RsslVerif.Gen.PathLookup.findInScopeArms = findInScopeArms ∧
+    RsslVerif.Gen.PathLookup.enumValueChecks = enumValueChecks ∧
+    RsslVerif.Gen.PathLookup.endEnumPromotion = endEnumPromotion :=
+  ⟨rfl, rfl, rfl, rfl, rfl, rfl, rfl, rfl, rfl⟩
 
 /-- the exporter's identifier for a qualified name is relative, its qualifiers and leaf are the segments in order -/
 theorem emitPath_relative {full : List String} {p : Path} (h : emitPath full = some p) :
@@ -671,6 +677,35 @@ theorem machine_tables_wf (is : List Instr) : TableWF (run is).T ∧ (run is).cu
   ⟨(run_inv is).wf, (run_inv is).cur⟩
 
 /-! ### witnesses -/
+
+/-- **enum_value_named_like_namespace_refused** (fix fe5dd8d; until then the real front end panicked in `end_enum`, the
+    model predicted `g1:panic` and the input was a known finding).  For every descriptor prefix `pre`, every enum — any
+    name, any list of values — one of whose values is spelled like a namespace / enum scope of the scope the enum stands
+    in, and every continuation `rest`: the compilation of `pre ++ en n vals :: rest` does not end with every use
+    resolved (`register_enum_value` returns `ValueAlreadyDefined`; `verdictOf` is `reject`, or the outcome of a use in
+    front of the enum).  No bound on depth, number of values or position of the value. -/
+theorem enum_value_named_like_namespace_refused (pre rest : List Instr) (n : String) {vals : List String} {v : String}
+    (hv : v ∈ vals) (hns : HasScopeSym (run pre).T (run pre).cur v) (xs : List String) :
+    verdictOf (run (pre ++ .en n vals :: rest)) ≠ .resolved xs :=
+  run_en_refused pre rest n hv hns xs
+
+/-- the step itself, in every state: the refusal is recorded with the number of uses in front of the enum -/
+theorem enum_value_named_like_namespace_refused_step (st : St) (n : String) {vals : List String} {v : String} (hv : v ∈ vals)
+    (hns : HasScopeSym st.T st.cur v) :
+    ∃ why, (exec st (.en n vals)).refused = st.refused.orElse fun _ => some (st.uses.length, why) :=
+  exec_en_refused st n hv hns
+
+/-- non-vacuity and the former reproducer: `namespace A {} enum E { A };` (corpus: `ns A end en E A end`) is refused —
+    also with other values around it, inside a namespace, and with a use in front; an enum whose values meet no
+    namespace is accepted and its uses resolve (`ns A end en E B end` + a use of `B`) -/
+example :
+    HasScopeSym (run [.ns "A", .end]).T (run [.ns "A", .end]).cur "A" ∧
+    verdictOf (run [.ns "A", .end, .en "E" ["A"]]) = .reject ∧
+    verdictOf (run [.ns "M", .ns "A", .gv "q", .end, .gv "g", .fn "f" "-", .use .v ⟨false, [], "g"⟩, .end,
+                    .en "E" ["V1", "A", "V2"], .end]) = .reject ∧
+    (run [.ns "A", .end, .en "E" ["B"], .fn "f" "-", .use .e ⟨false, [], "B"⟩, .end]).refused = none ∧
+    verdictOf (run [.ns "A", .end, .en "E" ["B"], .fn "f" "-", .use .e ⟨false, [], "B"⟩, .end]) = .resolved ["v1"] := by
+  refine ⟨⟨_, rfl, by decide⟩, by decide, by decide, by decide, by decide⟩
 
 /-- `namespace Util { int twice(int); } namespace App { namespace Util { int halve(int); } int f(int) { ::Util::twice(K); } }` -/
 def homonymInstrs : List Instr :=
